@@ -161,3 +161,22 @@ pub fn eviction(kind: &str, n: usize, rng: &mut SmallRng) -> Vec<Program> {
     }
     out
 }
+
+/// OS-thread stress: 3-5 threads with 1-2 commands each on one key
+pub fn stress(kind: &str, n: usize, rng: &mut SmallRng) -> Vec<Program> {
+    let mut out = Vec::new();
+    for x in 0..n {
+        let init = *["absent", "present", "expired"].choose(rng).unwrap();
+        let nc = rng.gen_range(3..=5);
+        let mut clients = Vec::new();
+        let mut total = 0;
+        for w in 0..nc {
+            let v = vocab(kind, w);
+            let len = if total >= 6 { 1 } else { rng.gen_range(1..=2) };
+            total += len;
+            clients.push((0..len).map(|_| v.choose(rng).unwrap().clone()).collect());
+        }
+        out.push(prog(kind, init, clients, format!("{}-stress-{}", kind, x)));
+    }
+    out
+}
